@@ -432,3 +432,13 @@ Definition so_arch (env : sinc_env) : arch SincFixedOut :=
 |}.
 
 End Async.
+
+Arguments a_mask_bad {C S St}. Arguments a_val_channels {C S St}. Arguments a_val_min_in {C S St}.
+Arguments a_val_min_out {C S St}. Arguments a_shift_lo {C S St}. Arguments a_shift_hi {C S St}.
+Arguments a_shift_dst {C S St}. Arguments a_pre {C S St}. Arguments a_fill_lo {C S St}. Arguments a_fill_hi {C S St}.
+Arguments a_fill_src_hi {C S St}. Arguments a_t0 {C S St}. Arguments a_tend {C S St}. Arguments a_inc {C S St}.
+Arguments a_idx0 {C S St}. Arguments a_fixed_in {C S St}. Arguments a_end_idx {C S St}. Arguments a_cond {C S St}.
+Arguments a_bound {C S St}. Arguments a_tstep {C S St}. Arguments a_istep {C S St}. Arguments a_sample {C S St}.
+Arguments a_write_checked {C S St}. Arguments a_finish {C S St}. Arguments a_ret {C S St}.
+Arguments mk_astate {C S St}. Arguments as_ctl {C S St}. Arguments as_buf {C S St}. Arguments as_mask {C S St}.
+Arguments pib {C S St}.
